@@ -106,7 +106,7 @@ func (i ReflectInspector) inspect(node any, key string) any {
 			return bytes
 		}
 		idx, err := strconv.Atoi(key)
-		if err != nil {
+		if err != nil || idx < 0 || idx >= v.Len() {
 			return nil
 		}
 		sv := v.Index(idx)
